@@ -116,6 +116,11 @@ FlagsAfterM(fl, kind, sid, acts, i) ==
     ELSE LET a == acts[i] IN
          FlagsAfterM(CASE a.k = kind -> fl \cup {Target(a, sid)} [] OTHER -> fl, kind, sid, acts, i + 1)
 
+\* the last succeed() / fail() among the acts of one callback: 0 none, 1 succeed, 2 fail
+LastReport(acts) ==
+    LET sf == {i \in 1 .. Len(acts) : acts[i].k \in {"S", "F"}}
+    IN  IF sf = {} THEN 0 ELSE IF acts[CHOOSE i \in sf : \A k \in sf : k <= i].k = "F" THEN 2 ELSE 1
+
 Targets(acts, kind, sid) == {Target(acts[i], sid) : i \in {q \in 1 .. Len(acts) : acts[q].k = kind}}
 
 RECURSIVE IsSubseq(_, _, _, _)
@@ -185,6 +190,8 @@ TkInit == [
     sawS |-> {},
     stepDone |-> FALSE, planBefore |-> <<>>, fired |-> <<>>, outcome |-> 0,     \* plan step of this cycle
     phases |-> 0,
+    repF |-> FALSE, dres |-> 0,     \* a phase delivery to the active state (its injections and itself) ended on a failure report in this
+                            \* call / the last report of the current such delivery (0 none, 1 success, 2 failure)
     pseen |-> {},           \* <<method, class, sub-delivery>> of the phase / query callbacks delivered in this call
     desync |-> 0 ]          \* lowest structural level violated in this call (0 = none): the rest of the call is not interpreted
 
@@ -218,7 +225,7 @@ TkCall(tk, e) ==
                            !.act0 = tk.obs.act, !.stage = "pre", !.dseq = <<>>, !.life = <<>>, !.dpos = 0, !.lastacts = <<>>,
                            !.inround = FALSE, !.rpend = NoT, !.rcancel = FALSE, !.rfirst = FALSE, !.rentry = FALSE,
                            !.surv = NoT, !.passed = {}, !.rounds = 0,
-                           !.sawF = {}, !.sawS = {}, !.stepDone = FALSE, !.fired = <<>>, !.outcome = 0, !.phases = 0, !.pseen = {},
+                           !.sawF = {}, !.sawS = {}, !.stepDone = FALSE, !.fired = <<>>, !.outcome = 0, !.phases = 0, !.pseen = {}, !.repF = FALSE, !.dres = 0,
                            !.planBefore = <<>>, !.desync = 0]
     IN  CASE e.op = "ctor"   -> [TkInit EXCEPT !.alive = TRUE, !.incall = TRUE, !.op = "ctor", !.logger = HasLog /\ e.p # 0]
           [] e.op \in {"to", "ito"}     -> [base EXCEPT !.lastreq = <<NONE, e.a, 0>>]
@@ -269,6 +276,10 @@ TkCb(tk, e) ==
                            !.mfail = IF cleared THEN {} ELSE FlagsAfterM(@, "F", e.sid, e.acts, 1) \ exitClears,
                            !.sawS = @ \cup Targets(e.acts, "S", e.sid),
                            !.sawF = @ \cup Targets(e.acts, "F", e.sid),
+                           !.repF = @ \/ (~cont /\ tk.dres = 2),
+                           !.dres = IF IsPhase(e.m) /\ e.s # NONE /\ e.s = tk.act0
+                                    THEN (IF LastReport(e.acts) # 0 THEN LastReport(e.acts) ELSE IF cont THEN @ ELSE 0)
+                                    ELSE 0,
                            !.planExists = @ \/ HasAct(e.acts, "PC") \/ HasAct(e.acts, "PW"),
                            !.lastreq = ReqAfter(e.req, e.sid, e.acts, 1),
                            !.lastacts = e.acts]
@@ -520,6 +531,8 @@ CheckCb(tk, e, tk2) ==
            "C09", "planSucceeded delivered while tasks remain, without an outstanding success, or without any task ever added")
     \cup V(IsPlanCb(e.m) /\ start => tk.outcome = 0 /\ step, "C09", "more than one plan outcome in one cycle, or outside the plan step")
     \cup V(FullObs /\ step /\ pb # <<>> /\ a0 \in tk.fail /\ HasHead => e.m = M_PLAN_FAILED, "C09", "planFailed not delivered although the plan is non-empty and the active state reported failure")
+    \cup V(FullObs /\ step /\ pb # <<>> /\ (tk.repF \/ tk.dres = 2) /\ HasHead => e.m = M_PLAN_FAILED,
+           "C09", "planFailed not delivered although the plan is non-empty and a delivery to the active state ended on a failure report in this very cycle")
 
 CheckRet(tk, e, tk2) ==
     LET proc == IsProcOp(tk.op)
@@ -638,6 +651,8 @@ CheckRet(tk, e, tk2) ==
     \cup V(FullObs /\ step /\ PlanObs /\ tk.lastreq # NoT /\ pb # <<>> /\ pb[1][1] = a0 /\ a0 \in tk.succ /\ tk.mfail = {} /\ tk.sawF = {} => pos # <<>> /\ pos[1] = 1,
            "C02", "the plan's request (the latest of the cycle) did not replace the earlier unprocessed request")
     \cup V(step /\ pb # <<>> /\ a0 \in tk.fail /\ HasHead => FALSE, "C09", "planFailed not delivered although the plan is non-empty and the active state reported failure")
+    \cup V(FullObs /\ step /\ pb # <<>> /\ (tk.repF \/ tk.dres = 2) /\ HasHead => FALSE,
+           "C09", "planFailed not delivered although the plan is non-empty and a delivery to the active state ended on a failure report in this very cycle")
     )
 
 CheckCall(tk, e, tk2) ==
